@@ -128,3 +128,82 @@ claim("C15", module="props.c15", category="proof",
       technique="contract-based: frame conditions (modifies = {functionValue.value} + fresh locals) checked on every path by a "
                 "write-effect analysis of the real AST",
       design_ref="DESIGN.md 5.C15")
+
+METHOD_NOTE = ("trusted base: pyvc (symbolic executor, own bounded quantifier instantiation, relevance slicing), z3 5.1 CLI; floats as "
+               "reals; INTERFACE contracts of the user's objective and listeners; ASSUMED contracts of depq.DEPQ, copy.deepcopy, "
+               "and the abstract of Evolvent.GetImage proved under C07/C17; per-run details in the evidence file")
+claim("C02", module="props.c02", category="proof",
+      text="Contracts proved on the real Method code: CalculateGlobalR (the three characteristic formulas), CalculateM (M = running "
+           "maximum of the slopes, floored at 1), CalculateNextPointCoordinate (the point rule; strictly inside the interval, both "
+           "raise statements unreachable), RecalcAllCharacteristics (loop invariant), CalculateIterationPoint (the chosen "
+           "interval has the maximal characteristic over the WHOLE partition with current M and z*: queue invariant 'every "
+           "interval queued exactly once with its current characteristic unless recalc is set'), RenewSearchData (re-establishes "
+           "the invariant), FirstIteration (first trial at the image of 0.5).",
+      note=METHOD_NOTE, technique="contract-based deductive verification: object invariant of Method+SearchData (ghost sequence / "
+      "queue views), loop invariants, lemma hints; z3 with own quantifier instantiation", design_ref="DESIGN.md 5.C02")
+claim("C06", module="props.c06", category="proof",
+      text="The object invariant INV of the search information (doubly linked list = ghost sequence, strictly increasing "
+           "coordinates from 0 to 1, end items unevaluated, every interior item evaluated, delta = hroot(x - x_left, N), region "
+           "ownership) is established by FirstIteration, preserved by RenewSearchData and by the loop of DoGlobalIteration "
+           "(loop invariant, unbounded in the number of iterations); new items carry the evolvent image of their coordinate and "
+           "the objective's value at that point.",
+      note=METHOD_NOTE + "; scope: global search (DoLocalRefinement rewrites the stored optimum item: known finding D7)",
+      technique="contract-based deductive verification: object invariant + loop invariant over DoGlobalIteration, z3",
+      design_ref="DESIGN.md 5.C06")
+claim("C04", module="props.c04", category="proof",
+      text="Invariant groups `val` and `best`: the optimum estimate is a stored evaluated item, z* = its value <= every evaluated "
+           "value, Solution.bestTrials[0] is that item, its reported value is the objective at its reported point and sits in "
+           "the item's own holder; proved for UpdateOptimum, OptimizationTask.Calculate, CalculateFunctionals, RenewSearchData, "
+           "FirstIteration and preserved by DoGlobalIteration, hence true at every listener call site and in the returned Solution.",
+      note=METHOD_NOTE, technique="contract-based deductive verification: object invariant (best tracking, holder ownership), z3",
+      design_ref="DESIGN.md 5.C04")
+claim("C03", module="props.c03", category="proof",
+      text="CheckStopCondition (stop <=> accuracy < eps or iterations >= budget), FinalizeIteration, CalculateIterationPoint "
+           "(accuracy' = min(chosen Hoelder length, accuracy)), CalculateFunctionals (trial counter = completed evaluations, "
+           "ghost counter on the objective), DoGlobalIteration (exactly `number` iterations, counters advance by `number`), Solve "
+           "(loop invariant, variant itersLimit - iterationsCount: termination; reported trials = evaluations <= budget; on exit "
+           "the criterion holds).",
+      note=METHOD_NOTE + "; termination of the objective, listeners and DEPQ assumed; scope refineSolution == False",
+      technique="contract-based deductive verification: loop invariants with variants, ghost evaluation counters, z3",
+      design_ref="DESIGN.md 5.C03")
+claim("C16", module="props.c16", category="proof",
+      text="Exceptional post-conditions (raises clauses) through OptimizationTask.Calculate, CalculateFunctionals, FirstIteration, "
+           "DoGlobalIteration and Solve for an objective that may raise ANY BaseException at ANY call: counters, optimum and the "
+           "list invariant reflect exactly the completed trials, the failed item is never inserted, Solve's handler catches every "
+           "class the interface contract allows and returns the solution.",
+      note=METHOD_NOTE, technique="contract-based deductive verification: exceptional post-conditions under the object invariant, z3",
+      design_ref="DESIGN.md 5.C16")
+claim("C13", module="props.c13", category="proof",
+      text="Ghost notification trace: DoGlobalIteration appends one BeforeMethodStart entry per listener before the first trial and "
+           "one OnEndIteration entry per listener whose argument holds, in order, exactly the items evaluated by this call; Solve "
+           "appends one OnMethodStop entry per listener with the returned solution. Arity obligations for every listener call "
+           "site against the base class and every shipped override; console final report: data-flow contract of "
+           "printFinalResult + label/parameter obligations of printResult. Non-interference through the callbacks' interface "
+           "contract and the frames.",
+      note=METHOD_NOTE + "; bodies of matplotlib/sklearn painters not verified", technique="contract-based deductive verification: "
+      "ghost trace post-conditions, loop invariants over the listener list, arity and data-flow obligations, z3",
+      design_ref="DESIGN.md 5.C13")
+claim("C11", module="props.c11", category="proof",
+      text="DoGlobalIteration(k) is k repetitions of one step that reads neither k, eps, itersLimit nor any clock/random source "
+           "(syntactic obligations + frames of the verified contracts); Solve repeats the one-step call while the criterion does "
+           "not hold (verified loop); the criterion is stable (accuracy never increases, counter never decreases) so a second "
+           "Solve performs no trial (post-condition); GetResults has an empty frame.",
+      note=METHOD_NOTE + "; determinism of DEPQ and of the objective by their assumed/interface contracts",
+      technique="contract-based deductive verification: frame/read obligations + loop contracts, z3", design_ref="DESIGN.md 5.C11")
+claim("C05", module="props.c05", category="proof",
+      text="Global phase: CalculateFunctionals requires its point to lie in the box; discharged at every call site from the "
+           "post-condition of GetImage (abstract of C07). Refinement: DoLocalRefinement verified against the ASSUMED SciPy contract "
+           "whose precondition is that the problem's bounds are passed and the start point is the optimum; returned point in the "
+           "box, reported value = objective re-evaluated there, not worse than the best global trial.",
+      note=METHOD_NOTE + "; SciPy Nelder-Mead itself is a dependency: assumed contract + bounded native runs (not counted)",
+      technique="contract-based deductive verification: pre/post-conditions chained through the assumed dependency contract, z3",
+      design_ref="DESIGN.md 5.C05")
+claim("C01", module="props.c01", category="proof",
+      text="Two layers. Code layer: the premises (arg-max interval over the whole partition with characteristics equal to the AGP "
+           "formula for the current M, z*; slope bound; stop moment; accuracy update) are post-conditions proved on the real "
+           "code. Lemma layer: 18 real-arithmetic lemmas (z3/nlsat): N=1 complete chain to z* - f(y) < (rM/2) eps; N=2..5 the "
+           "power-mean and interval lemmas under the Hoelder constant of f o curve with rM >= K_N L.",
+      note=METHOD_NOTE + "; for N >= 2 the Hoelder bound of the curve (C08's consequence) and the grid term of the statement are "
+           "classical arguments that are NOT mechanised here; reliability condition taken at the last decision",
+      technique="contract-based deductive verification (premises) + SMT-checked lemmas over those post-conditions (conclusion)",
+      design_ref="DESIGN.md 5.C01")
